@@ -108,6 +108,17 @@ class Pools:
                        "coordinate_transformation_mode": ["half_pixel", "align_corners", "asymmetric"], "nearest_mode": ["floor", "ceil"],
                        "padding_mode": ["zeros", "border", "reflection"], "approximate": ["none", "tanh"]}
 
+    def backend_models_of_op(self, op_type: str, rng: Rng, n: int = 2) -> list[dict]:
+        """Fully lifted onnx backend node tests of one operator (by test directory name)."""
+        import re
+
+        snake = re.sub(r"(?<!^)(?=[A-Z][a-z])", "_", op_type).lower()
+        cands = [(p, k) for p, k in self.backend_models if p.startswith("node/test_" + snake) or p.startswith("node/test_" + op_type.lower())]
+        out = []
+        for p, k in rng.sample(cands, min(n, len(cands))):
+            out.append({"pool": "onnx_backend", "path": p, "lift": list(range(k))})
+        return out
+
     def backend_attr_family(self, rng: Rng) -> list[dict] | None:
         """One onnx backend node test, fully lifted (every input an initializer, so its node is constant-foldable), plus
         variants of it that differ in the value of ONE attribute (declared or defaulted in the schema): same operator and
@@ -159,6 +170,8 @@ class Pools:
         if flavour == "gen":
             g = genscripts.gen_script(rng.sub("g"), f"g{rng.below(10**6)}")
             op.update(src=g["src"], fns=g["fns"])
+            if g.get("oplike"):
+                op["family"] = "oplike:" + g["oplike"]
         elif flavour == "models":
             name, src = rng.choice(self.scripts_models)
             op.update(src=src, family=name)
